@@ -183,6 +183,8 @@ def parse_complex(text):
     t = text
     if t.startswith("(") and t.endswith(")"):
         t = t[1:-1]
+    if t is not text and (_floatsyntax(t) or _infnan(t)):
+        return complex(text)         # python's complex() takes a parenthesised real: (0), (1.5), (1e3), (inf)
     if not t or t[-1] not in "jJ":
         return None
     body = t[:-1]
@@ -251,6 +253,13 @@ def classify_number(text):
             rest = Exp("complex", c)
         elif _bare_j(text):
             rest = Exp("ambiguous", alts=[Exp("complex", complex(text)), Exp("error")])
+        else:
+            # the last documented step is python's own complex(): where this syntax model and python disagree (infj,
+            # 1+nanj, digit-group underscores ...) both readings are accepted rather than raising an alarm
+            try:
+                rest = Exp("ambiguous", alts=[Exp("complex", complex(text)), Exp("error")])
+            except ValueError:
+                pass
     if barehex:       # hex numeral without prefix: documented step, undocumented syntax
         if rest is not None and rest.kind == "float" and BAREHEX_IS_HEX is True:
             return Exp("hex", int(text, 16))        # both readings possible: the documented order puts hex first
